@@ -310,6 +310,11 @@ def build(cfg, keep_going=False):
             refused.append(i)
             continue
         intrs.append(it)
+        if len(intrs) == 1 + (len(cfg["intrs"]) + cfg["aw"]) % 3 and i + 1 < len(cfg["intrs"]):
+            # a half-built arbiter looked at / elaborated early (RTL generated for a partial design, a log
+            # message listing its signals); the result is thrown away and what is elaborated later is the
+            # arbiter as it then stands
+            arb.elaborate(None)
     if keep_going:
         return arb, intrs, refused
     return arb, intrs
